@@ -85,6 +85,9 @@ func sourceFile(kind string, env EnumEnv, objDesc string, props []Prop) *sourced
 		Elements: []*sourcedef_j5pb.RootElement{
 			{Type: &sourcedef_j5pb.RootElement_Enum{Enum: enum}},
 			{Type: &sourcedef_j5pb.RootElement_Object{Object: &sourcedef_j5pb.Object{Def: &schema_j5pb.Object{Name: "Bar", Properties: []*schema_j5pb.ObjectProperty{str("x")}}}}},
+			{Type: &sourcedef_j5pb.RootElement_Object{Object: &sourcedef_j5pb.Object{Def: &schema_j5pb.Object{Name: "Baz", Properties: []*schema_j5pb.ObjectProperty{
+				{Name: "y", Schema: &schema_j5pb.Field{Type: &schema_j5pb.Field_Integer{Integer: &schema_j5pb.IntegerField{Format: schema_j5pb.IntegerField_FORMAT_INT32}}}}}}}}},
+			{Type: &sourcedef_j5pb.RootElement_Oneof{Oneof: &sourcedef_j5pb.Oneof{Def: &schema_j5pb.Oneof{Name: "Pick", Properties: []*schema_j5pb.ObjectProperty{str("c")}}}}},
 			{Type: &sourcedef_j5pb.RootElement_Oneof{Oneof: &sourcedef_j5pb.Oneof{Def: &schema_j5pb.Oneof{Name: "Choice", Properties: []*schema_j5pb.ObjectProperty{str("a"),
 				{Name: "b", Schema: &schema_j5pb.Field{Type: &schema_j5pb.Field_Integer{Integer: &schema_j5pb.IntegerField{Format: schema_j5pb.IntegerField_FORMAT_INT32}}}}}}}}},
 			root,
